@@ -10,7 +10,7 @@ HUB_TB = [
 HUB_RULE = ('seeded histories (VERIF_SEED -> splitmix64) of 40-120 operations over 4 chains, 1-3 denoms with external decimals in {0,6,8,12,18,20,24}, '
             'commission rates {0,1e-18,0.003,0.01,0.5,0.999,random}, holder tiers, prices; operations: send, cancel, request-batch, deposit / transfer / '
             'batch-executed / other events (applied by EndBlocker), BeginBlock (timeouts, auto-batching), EndBlock (expiry refunds), governance token-list change; '
-            'a separate hostile stream adds 2^250-scale amounts, negative and overflowing fees, zero deposits, unknown tokens. '
+            'a separate hostile stream adds 2^250-scale amounts, negative and overflowing fees, zero deposits, unknown tokens (the hub value of all deposits of one asset is kept below 2^255: what the custodies hold stays representable). '
             'One case in four lists the same contract address on ethereum and bsc for different assets; one in four scales the validator powers beyond 2^32 (the signer set given to the model is normalised by the harness, not read from the keeper); '
             'quiet stretches of 4-17 empty blocks while batches wait; batch requests inside a transaction that fails afterwards (dropped cache branch). '
             'A case counts as non-trivial/agreeing when the model reproduces the implementation\'s observable state after every operation.')
@@ -157,7 +157,10 @@ PROPS = {
                     'or by a 62 s jump so that they expire next to a second burst; every BeginBlocker/EndBlocker on a cache-wrapped multistore under a watchdog. votes / oracle: as for C02/C03 and C18.',
             'assumptions': ['every configured chain id is one of ethereum, bsc, minter, hub and the average block times are non-zero (hypothesis params_ok; an unknown chain id divides by zero in getBatchTimeoutHeight)',
                             'staking powers are non-negative']},
-    'C01': {'suites': hub_suite() + [{'name': 'hub', 'quick': '-n 60 -ops 80 -gov', 'thorough': '-n 500 -ops 120 -gov', 'shards': {'quick': 1, 'thorough': 8}},
+    # the hostile stream of C01 keeps the reported executions within what the custody could have done (-consistent):
+    # a custody ledger derived from execution claims is meaningless for executions no contract / multisig can make
+    'C01': {'suites': [dict(s, quick=s['quick'] + ' -consistent', thorough=s['thorough'] + ' -consistent') if '-hostile' in s['quick'] else s for s in hub_suite()]
+                      + [{'name': 'hub', 'quick': '-n 60 -ops 80 -gov', 'thorough': '-n 500 -ops 120 -gov', 'shards': {'quick': 1, 'thorough': 8}},
                                      # the clock that decides batch timeouts moves only with attested claims (sub-quorum and conflicting claims, key rotations)
                                      {'name': 'votesh', 'quick': '-n 100 -ops 60', 'thorough': '-n 1500 -ops 120', 'shards': {'quick': 1, 'thorough': 8}}],
             'trusted_base': HUB_TB + [
@@ -205,7 +208,9 @@ PROPS = {
                     'addresses with leading zero bytes and in every spelling IsHexAddress accepts (checksummed, lower, upper, 0X prefix, no prefix), contract calls with payloads of 0/1/31/32/33/64/100/1000 bytes and scopes of 0/1/20/32 bytes. sig: fresh secp256k1 keys; valid signatures, other claimed address, '
                     'v=27/28 and 0/1, short, long, damaged signatures, other digest, the high-s twin (r, n-s, v^1) of a valid signature.',
             'assumptions': ['Keccak-256 collision resistance and ECDSA unforgeability (not proved; the scheme agreement holds for any recovery function)']},
-    'C09': {'suites': [{'name': 'sigset', 'quick': '-n 400 -ops 25', 'thorough': '-n 3000 -ops 60', 'shards': {'quick': 2, 'thorough': 16}}],
+    'C09': {'suites': [{'name': 'sigset', 'quick': '-n 400 -ops 25', 'thorough': '-n 3000 -ops 60', 'shards': {'quick': 2, 'thorough': 16}},
+                       # with attested executions and pruning in between: the latest nonce never goes back, stored nonces are unique
+                       {'name': 'sigprune', 'quick': '-n 150 -ops 40', 'thorough': '-n 2000 -ops 80', 'shards': {'quick': 1, 'thorough': 8}}],
             'trusted_base': SIG_TB, 'rule': SIG_RULE,
             'assumptions': ['powers are non-negative', 'registered external addresses are distinct (C17); the staking hook for unbonding heights is disabled in the code (lastUnbondingHeight stays 0)']},
     'C02': {'suites': votes_suite(), 'trusted_base': VOTES_TB, 'rule': VOTES_RULE,
